@@ -358,16 +358,24 @@ static void one_case(json_object *doc, json_object *patch, int mode)
 	json_object *base = NULL, *priv = NULL;
 	struct json_patch_error pe;
 	memset(&pe, 0, sizeof pe);
+	if (mode == 1)
+	{
+		/* in place: on a private equal document - now and then one whose nodes have a history (strings grown by set,
+		 * objects with deleted members, trimmed arrays); the in-place mode is the one that meets such nodes */
+		if (vh_below(2))
+			priv = c09_twin_h(doc);
+		else
+			json_object_deep_copy(doc, &priv, NULL);
+	}
 	ev_begin("patch");
 	ev_int("mode", mode);
-	dump_value("doc", doc);
+	dump_value("doc", mode == 1 ? priv : doc);
 	dump_value("patch", patch);
 	int rc;
 	if (mode == 0)
 		rc = json_patch_apply(doc, patch, &base, &pe);
 	else
 	{
-		json_object_deep_copy(doc, &priv, NULL);
 		base = priv;
 		rc = json_patch_apply(NULL, patch, &base, &pe);
 	}
